@@ -44,6 +44,9 @@ type RunConfig struct {
 	PAsync        float64 `json:"p_async"`
 	PReFF         float64 `json:"p_reff"`
 	BadgerCache   int     `json:"badger_cache"`
+	Straggler     int     `json:"straggler"`
+	Synthetic     bool    `json:"synthetic"`
+	StragglerP    float64 `json:"straggler_p"`
 	Variants      int     `json:"variants"`
 	TxStyle       string  `json:"tx_style"` // "unique" | "mixed"
 	FairSuffix    bool    `json:"fair_suffix"`
@@ -278,8 +281,17 @@ func (c *Cluster) genStep(g *genState) *Step {
 		}
 	}
 	a := alive[r.Intn(len(alive))]
-	if c.cfg.Byz > 0 && len(alive) > 1 {
-		// silent Byzantine identities never tick; nothing to do here
+	// straggler bias: one validator takes part only now and then, so that its
+	// witnesses reach the others late and unevenly (votes on them are split and
+	// fame decisions are pushed to later rounds, up to the coin round)
+	strag := -1
+	if cfg.Straggler > 0 && cfg.Straggler <= len(c.nodes) {
+		strag = cfg.Straggler - 1
+		if a.idx == strag && !r.Bool(cfg.StragglerP) && len(alive) > 1 {
+			for a.idx == strag {
+				a = alive[r.Intn(len(alive))]
+			}
+		}
 	}
 	st := &Step{Op: "tick", A: a.idx, B: -1}
 	switch a.state() {
@@ -289,6 +301,17 @@ func (c *Cluster) genStep(g *genState) *Step {
 			p := others[r.Intn(len(others))]
 			if b := c.byPub[p.PubKeyString()]; b != nil {
 				st.B = b.idx
+			}
+			if strag >= 0 && st.B == strag && a.idx != strag && len(others) > 1 && !r.Bool(cfg.StragglerP) {
+				for tries := 0; tries < 8 && st.B == strag; tries++ {
+					p = others[r.Intn(len(others))]
+					if b := c.byPub[p.PubKeyString()]; b != nil {
+						st.B = b.idx
+					}
+				}
+			}
+			if strag >= 0 && a.idx == strag && r.Bool(0.5) {
+				st.Kind = "pullonly"
 			}
 		}
 		if cfg.PAsync > 0 && st.B >= 0 && r.Bool(cfg.PAsync) && c.parkedCount(a) < 3 {
